@@ -119,20 +119,37 @@ theorem ss58Encode_ok (H : Bytes → Bytes) (data : Bytes) (fmt : Nat) (hd : dat
   have h2 : ¬ fmt > 16383 := by omega
   simp [h1, h2, h46, h47, pure, Except.pure]
 
+/-- the strict prefix decoder of the repaired `ss58Decode`: reserved first bytes (bit 7 set) and
+non-canonical two-byte prefixes (decoded format `≤ 63`) are refused. -/
+def ss58PrefixStrict (b : Bytes) : Option (Nat × Nat) :=
+  match b with
+  | [] => none
+  | b0 :: rest =>
+    if b0.toNat &&& 128 ≠ 0 then none
+    else if b0.toNat &&& 64 ≠ 0 then
+      match rest with
+      | [] => none
+      | b1 :: _ => if ss58Fmt2 b0.toNat b1.toNat ≤ 63 then none else some (2, ss58Fmt2 b0.toNat b1.toNat)
+    else some (1, b0.toNat)
+
+/-- the part of `ss58Decode` after the prefix -/
+def ss58Tail (H : Bytes → Bytes) (dec : Bytes) (fmtLen fmt : Nat) : R (Nat × Bytes) :=
+  if fmt = 46 ∨ fmt = 47 then .error .value
+  else
+    let dataBytes := if dec.length < fmtLen + 2 then [] else dropLast (dec.drop fmtLen) 2
+    if dataBytes.length ≠ 32 then .error .value
+    else if takeLast dec 2 ≠ ss58Checksum H (dropLast dec 2) then .error .checksum
+    else .ok (fmt, dataBytes)
+
 /-- `ss58Decode` in a flat, match-based form (no monadic plumbing). -/
 def ss58DecodeFlat (H : Bytes → Bytes) (s : List Char) : R (Nat × Bytes) :=
   match b58Decode btcAlphabet s with
   | .error e => .error e
   | .ok dec =>
-    match ss58PrefixDecode dec with
-    | none => .error .index
-    | some (fmtLen, fmt) =>
-      if fmt = 46 ∨ fmt = 47 then .error .value
-      else
-        let dataBytes := if dec.length < fmtLen + 2 then [] else dropLast (dec.drop fmtLen) 2
-        if dataBytes.length ≠ 32 then .error .value
-        else if takeLast dec 2 ≠ ss58Checksum H (dropLast dec 2) then .error .checksum
-        else .ok (fmt, dataBytes)
+    if dec.length < 2 then .error .value
+    else match ss58PrefixStrict dec with
+      | none => .error .value
+      | some (fmtLen, fmt) => ss58Tail H dec fmtLen fmt
 
 theorem ss58Decode_tail (H : Bytes → Bytes) (dec : Bytes) (fmtLen fmt : Nat) :
     (do
@@ -143,12 +160,8 @@ theorem ss58Decode_tail (H : Bytes → Bytes) (dec : Bytes) (fmtLen fmt : Nat) :
       if dataBytes.length ≠ 32 then throw Err.value
       if ck != ss58Checksum H (dropLast dec 2) then throw Err.checksum
       pure (fmt, dataBytes) : R (Nat × Bytes))
-    = (if fmt = 46 ∨ fmt = 47 then .error .value
-      else
-        let dataBytes := if dec.length < fmtLen + 2 then [] else dropLast (dec.drop fmtLen) 2
-        if dataBytes.length ≠ 32 then .error .value
-        else if takeLast dec 2 ≠ ss58Checksum H (dropLast dec 2) then .error .checksum
-        else .ok (fmt, dataBytes)) := by
+    = ss58Tail H dec fmtLen fmt := by
+  unfold ss58Tail
   by_cases h1 : fmt = 46 ∨ fmt = 47
   · rcases h1 with rfl | rfl <;> rfl
   · have h1' : fmt ≠ 46 ∧ fmt ≠ 47 := by omega
@@ -167,21 +180,58 @@ theorem ss58Decode_eq_flat (H : Bytes → Bytes) (s : List Char) :
     cases dec with
     | nil => rfl
     | cons b0 rest =>
-      by_cases hb : b0.toNat &&& 64 ≠ 0
-      · cases rest with
-        | nil =>
-          simp only [ss58PrefixDecode, if_pos hb, bind, Except.bind, pyIdx, List.getElem?_cons_zero, pure, Except.pure, List.getElem?_cons_succ, List.getElem?_nil]; rfl
-        | cons b1 rest' =>
-          have := ss58Decode_tail H (b0 :: b1 :: rest') 2 (ss58Fmt2 b0.toNat b1.toNat)
-          simp only [ss58PrefixDecode, if_pos hb]
-          rw [← this]
-          simp only [bind, Except.bind, pyIdx, List.getElem?_cons_zero, if_pos hb, pure, Except.pure,
-            List.getElem?_cons_succ]
+      cases rest with
+      | nil => rfl
+      | cons b1 rest' =>
+        have hlen : ¬ (b0 :: b1 :: rest').length < 2 := by simp
+        by_cases h7 : b0.toNat &&& 128 ≠ 0
+        · simp only [ss58PrefixStrict, if_pos h7, bind, Except.bind, pyIdx, List.getElem?_cons_zero,
+            pure, Except.pure, hlen, if_false]
           rfl
-      · have := ss58Decode_tail H (b0 :: rest) 1 b0.toNat
-        simp only [ss58PrefixDecode, if_neg hb]
-        rw [← this]
-        simp only [bind, Except.bind, pyIdx, List.getElem?_cons_zero, if_neg hb, pure, Except.pure]
+        · by_cases hb : b0.toNat &&& 64 ≠ 0
+          · by_cases hf : ss58Fmt2 b0.toNat b1.toNat ≤ 63
+            · have hf' : (b0.toNat &&& 63) <<< 2 ||| b1.toNat >>> 6 ||| (b1.toNat &&& 63) <<< 8 ≤ 63 := hf
+              simp only [ss58PrefixStrict, if_neg h7, if_pos hb, if_pos hf, if_pos hf', bind, Except.bind,
+                pyIdx, List.getElem?_cons_zero, pure, Except.pure, hlen, if_false,
+                List.getElem?_cons_succ]
+              rfl
+            · have hf' : ¬ (b0.toNat &&& 63) <<< 2 ||| b1.toNat >>> 6 ||| (b1.toNat &&& 63) <<< 8 ≤ 63 := hf
+              have := ss58Decode_tail H (b0 :: b1 :: rest') 2 (ss58Fmt2 b0.toNat b1.toNat)
+              simp only [ss58PrefixStrict, if_neg h7, if_pos hb, if_neg hf, hlen, if_false]
+              rw [← this]
+              simp only [bind, Except.bind, pyIdx, List.getElem?_cons_zero, if_pos hb, pure, Except.pure,
+                List.getElem?_cons_succ, hlen, if_false, if_neg h7, if_neg hf']
+              rfl
+          · have := ss58Decode_tail H (b0 :: b1 :: rest') 1 b0.toNat
+            simp only [ss58PrefixStrict, if_neg h7, if_neg hb, hlen, if_false]
+            rw [← this]
+            simp only [bind, Except.bind, pyIdx, List.getElem?_cons_zero, if_neg hb, pure, Except.pure,
+              hlen, if_false, if_neg h7]
+
+theorem ss58_one_byte_all' : (List.range 64).all (fun fmt => fmt &&& 128 == 0) = true := by
+  decide +kernel
+
+theorem ss58_one_byte' {fmt : Nat} (h : fmt ≤ 63) : fmt &&& 128 = 0 := by
+  have := List.all_eq_true.mp ss58_one_byte_all' fmt (List.mem_range.mpr (by omega))
+  simpa using this
+
+/-- the strict prefix decoder accepts every prefix the encoder writes. -/
+theorem ss58PrefixStrict_formatBytes {fmt : Nat} (h : fmt ≤ 16383) (tail : Bytes) (ht : tail ≠ []) :
+    ss58PrefixStrict (ss58FormatBytes fmt ++ tail) = some ((ss58FormatBytes fmt).length, fmt) := by
+  by_cases hs : fmt ≤ 63
+  · have htn : (UInt8.ofNat fmt).toNat = fmt := by simp [UInt8.toNat_ofNat']; omega
+    rw [ss58FormatBytes_small hs]
+    simp only [ss58PrefixStrict, List.cons_append, List.nil_append, htn, ss58_one_byte hs,
+      ss58_one_byte' hs]
+    simp
+  · obtain ⟨a, b, c, d, e⟩ := ss58_two_byte (by omega : 64 ≤ fmt) h
+    have h0 : (UInt8.ofNat (ss58B0 fmt)).toNat = ss58B0 fmt := by
+      simp [UInt8.toNat_ofNat']; omega
+    have h1 : (UInt8.ofNat (ss58B1 fmt)).toNat = ss58B1 fmt := by
+      simp [UInt8.toNat_ofNat']; omega
+    rw [ss58FormatBytes_large (by omega)]
+    simp only [ss58PrefixStrict, List.cons_append, List.nil_append, h0, h1, e, d]
+    simp [c, hs]
 
 /-- **SS58 round trip**: for every checksum function with at least 2 output bytes, every 32-byte
 payload and every admissible, non-reserved address format. -/
@@ -196,7 +246,11 @@ theorem ss58_decode_encode (H : Bytes → Bytes) (hH : ∀ x, 2 ≤ (H x).length
   set fb := ss58FormatBytes fmt with hfb
   set ck := ss58Checksum H (fb ++ data) with hck
   have hckl : ck.length = 2 := ss58Checksum_length H hH _
-  obtain ⟨hpre, hlen, -⟩ := ss58_prefix_roundtrip hf (data ++ ck)
+  obtain ⟨-, hlen, -⟩ := ss58_prefix_roundtrip hf (data ++ ck)
+  have hdne : data ++ ck ≠ [] := by
+    intro e; have := congrArg List.length e
+    rw [List.length_append, hd] at this; simp at this
+  have hpre := ss58PrefixStrict_formatBytes hf (data ++ ck) hdne
   rw [← hfb] at hpre hlen
   have hdl : dropLast ((fb ++ data) ++ ck) 2 = fb ++ data := dropLast_append_of_length _ _ 2 hckl
   have htl : takeLast ((fb ++ data) ++ ck) 2 = ck := takeLast_append_of_length _ _ 2 hckl
@@ -204,8 +258,234 @@ theorem ss58_decode_encode (H : Bytes → Bytes) (hH : ∀ x, 2 ≤ (H x).length
     rw [List.append_assoc, List.drop_left]; exact dropLast_append_of_length _ _ 2 hckl
   have hlen2 : ¬ ((fb ++ data) ++ ck).length < fb.length + 2 := by
     simp only [List.length_append]; omega
+  have hlen0 : ¬ ((fb ++ data) ++ ck).length < 2 := by
+    simp only [List.length_append, hckl]; omega
   have hne : ¬ (fmt = 46 ∨ fmt = 47) := by omega
   rw [← List.append_assoc] at hpre
-  simp only [hpre, hne, if_false, hlen2, hdata, hd, htl, hdl, ne_eq, not_true_eq_false, ← hck]
+  simp only
+  rw [if_neg hlen0, hpre]
+  simp only [ss58Tail, hne, if_false, hlen2, hdata, hd, htl, hdl, ne_eq, not_true_eq_false, ← hck]
+
+/-! ### canonicity / soundness of the decoder -/
+
+/-- converse of `ss58_two_byte`, checked on all 64 × 256 admissible byte pairs: a two-byte prefix
+with bit 6 set and bit 7 clear whose decoded format is `≥ 64` is the prefix the encoder writes. -/
+def ss58ConvOk (b0 b1 : Nat) : Bool :=
+  ss58Fmt2 b0 b1 ≤ 63 ||
+    (ss58Fmt2 b0 b1 ≤ 16383 && ss58B0 (ss58Fmt2 b0 b1) == b0 && ss58B1 (ss58Fmt2 b0 b1) == b1)
+
+theorem ss58_two_byte_conv_all :
+    (List.range 64).all (fun i => (List.range 256).all (fun b1 => ss58ConvOk (i + 64) b1)) = true := by
+  decide +kernel
+
+theorem ss58_byte_bits_all : (List.range 256).all (fun b =>
+    (b &&& 128 != 0 || b &&& 64 != 0 || decide (b ≤ 63)) &&
+    (b &&& 128 != 0 || b &&& 64 == 0 || (decide (64 ≤ b) && decide (b < 128)))) = true := by
+  decide +kernel
+
+theorem ss58_byte_bits {b : Nat} (hb : b < 256) (h7 : b &&& 128 = 0) :
+    (b &&& 64 = 0 → b ≤ 63) ∧ (b &&& 64 ≠ 0 → 64 ≤ b ∧ b < 128) := by
+  have := List.all_eq_true.mp ss58_byte_bits_all b (List.mem_range.mpr hb)
+  simp only [Bool.and_eq_true, Bool.or_eq_true, bne_iff_ne, ne_eq, decide_eq_true_eq,
+    beq_iff_eq] at this
+  obtain ⟨h1, h2⟩ := this
+  constructor
+  · intro h6
+    rcases h1 with (h | h) | h
+    · exact absurd h7 h
+    · exact absurd h6 h
+    · exact h
+  · intro h6
+    rcases h2 with (h | h) | h
+    · exact absurd h7 h
+    · exact absurd h h6
+    · exact h
+
+theorem ss58_two_byte_conv {b0 b1 : Nat} (h0 : 64 ≤ b0) (h0' : b0 < 128) (h1 : b1 < 256)
+    (hf : ¬ ss58Fmt2 b0 b1 ≤ 63) :
+    ss58Fmt2 b0 b1 ≤ 16383 ∧ ss58B0 (ss58Fmt2 b0 b1) = b0 ∧ ss58B1 (ss58Fmt2 b0 b1) = b1 := by
+  have := List.all_eq_true.mp ss58_two_byte_conv_all (b0 - 64) (List.mem_range.mpr (by omega))
+  have := List.all_eq_true.mp this b1 (List.mem_range.mpr h1)
+  rw [show b0 - 64 + 64 = b0 by omega] at this
+  simp only [ss58ConvOk, Bool.or_eq_true, Bool.and_eq_true, decide_eq_true_eq, beq_iff_eq] at this
+  rcases this with h | ⟨⟨a, b⟩, c⟩
+  · exact absurd h hf
+  · exact ⟨a, b, c⟩
+
+/-- an accepted prefix is the prefix the encoder writes for the decoded format. -/
+theorem ss58PrefixStrict_sound {dec : Bytes} {fmtLen fmt : Nat}
+    (h : ss58PrefixStrict dec = some (fmtLen, fmt)) :
+    fmt ≤ 16383 ∧ dec.take fmtLen = ss58FormatBytes fmt ∧ fmtLen ≤ dec.length := by
+  cases dec with
+  | nil => simp [ss58PrefixStrict] at h
+  | cons b0 rest =>
+    have hb0 := b0.toNat_lt
+    by_cases h7 : b0.toNat &&& 128 ≠ 0
+    · simp only [ss58PrefixStrict, if_pos h7] at h; cases h
+    · have h7' : b0.toNat &&& 128 = 0 := by simpa using h7
+      obtain ⟨hsmall, hlarge⟩ := ss58_byte_bits (by omega) h7'
+      by_cases h6 : b0.toNat &&& 64 ≠ 0
+      · cases rest with
+        | nil => simp only [ss58PrefixStrict, if_neg h7, if_pos h6] at h; cases h
+        | cons b1 rest' =>
+          have hb1 := b1.toNat_lt
+          by_cases hf : ss58Fmt2 b0.toNat b1.toNat ≤ 63
+          · simp only [ss58PrefixStrict, if_neg h7, if_pos h6, if_pos hf] at h; cases h
+          · simp only [ss58PrefixStrict, if_neg h7, if_pos h6, if_neg hf, Option.some.injEq,
+              Prod.mk.injEq] at h
+            obtain ⟨rfl, rfl⟩ := h
+            obtain ⟨hr0, hr1⟩ := hlarge h6
+            obtain ⟨a, b, c⟩ := ss58_two_byte_conv hr0 hr1 (by omega) hf
+            refine ⟨a, ?_, by simp⟩
+            rw [ss58FormatBytes_large (by omega), b, c]
+            simp
+      · simp only [ss58PrefixStrict, if_neg h7, if_neg h6, Option.some.injEq, Prod.mk.injEq] at h
+        obtain ⟨rfl, rfl⟩ := h
+        have h6' : b0.toNat &&& 64 = 0 := by simpa using h6
+        have hle := hsmall h6'
+        refine ⟨by omega, ?_, by simp⟩
+        rw [ss58FormatBytes_small hle]
+        simp
+
+/-- what acceptance by `ss58Decode` means, spelled out on the decoded bytes. -/
+theorem ss58Decode_ok_inv {H : Bytes → Bytes} {s : List Char} {fmt : Nat} {data : Bytes}
+    (h : ss58Decode H s = .ok (fmt, data)) :
+    ∃ dec, b58Decode btcAlphabet s = .ok dec ∧ fmt ≤ 16383 ∧ fmt ≠ 46 ∧ fmt ≠ 47 ∧ data.length = 32 ∧
+      dec = (ss58FormatBytes fmt ++ data) ++ ss58Checksum H (ss58FormatBytes fmt ++ data) := by
+  rw [ss58Decode_eq_flat] at h
+  unfold ss58DecodeFlat at h
+  cases hdec : b58Decode btcAlphabet s with
+  | error e => rw [hdec] at h; cases h
+  | ok dec =>
+    rw [hdec] at h
+    simp only at h
+    by_cases hl : dec.length < 2
+    · rw [if_pos hl] at h; cases h
+    · rw [if_neg hl] at h
+      cases hp : ss58PrefixStrict dec with
+      | none => rw [hp] at h; cases h
+      | some pr =>
+        obtain ⟨fmtLen, fmt'⟩ := pr
+        rw [hp] at h
+        simp only [ss58Tail] at h
+        by_cases h1 : fmt' = 46 ∨ fmt' = 47
+        · rw [if_pos h1] at h; cases h
+        · rw [if_neg h1] at h
+          by_cases h2 : (if dec.length < fmtLen + 2 then [] else dropLast (dec.drop fmtLen) 2).length ≠ 32
+          · rw [if_pos h2] at h; cases h
+          · rw [if_neg h2] at h
+            by_cases h3 : takeLast dec 2 ≠ ss58Checksum H (dropLast dec 2)
+            · rw [if_pos h3] at h; cases h
+            · rw [if_neg h3] at h
+              have hfmt : fmt' = fmt := by cases h; rfl
+              have hdata : (if dec.length < fmtLen + 2 then [] else dropLast (dec.drop fmtLen) 2) = data := by
+                cases h; rfl
+              subst hfmt
+              obtain ⟨hf, htake, hfl⟩ := ss58PrefixStrict_sound hp
+              have h2' : data.length = 32 := by rw [← hdata]; simpa using h2
+              have h3' : takeLast dec 2 = ss58Checksum H (dropLast dec 2) := by simpa using h3
+              have hlong : ¬ dec.length < fmtLen + 2 := by
+                intro hc; rw [if_pos hc] at hdata; rw [← hdata] at h2'; simp at h2'
+              rw [if_neg hlong] at hdata
+              have hdl : dropLast dec 2 = ss58FormatBytes fmt' ++ data := by
+                rw [← htake, ← hdata]
+                unfold dropLast
+                rw [List.length_drop, List.take_drop]
+                have : fmtLen + (dec.length - fmtLen - 2) = dec.length - 2 := by omega
+                rw [this]
+                conv_lhs => rw [← List.take_append_drop fmtLen (dec.take (dec.length - 2))]
+                rw [List.take_take, Nat.min_eq_left (by omega)]
+              refine ⟨dec, rfl, hf, by omega, by omega, h2', ?_⟩
+              rw [← hdl, ← h3', dropLast_append_takeLast]
+
+/-- **SS58 canonicity**: every accepted address is the encoding of the decoded format and payload
+(for any checksum hash; no assumption on its output length is needed because a shorter checksum
+can never equal the two trailing bytes). -/
+theorem ss58_decode_canonical' (H : Bytes → Bytes) {s : List Char} {fmt : Nat} {data : Bytes}
+    (h : ss58Decode H s = .ok (fmt, data)) : ss58Encode H data fmt = .ok s := by
+  obtain ⟨dec, hdec, hf, h46, h47, hd, hshape⟩ := ss58Decode_ok_inv h
+  rw [ss58Encode_ok H data fmt hd hf h46 h47, ← hshape,
+    b58_encode_decode btcAlphabet btcAlphabet_nodup btcAlphabet_length s dec hdec]
+
+/-- the same with the usual hypothesis on the hash (not needed). -/
+theorem ss58_decode_canonical (H : Bytes → Bytes) (_hH : ∀ x, (H x).length ≥ 2) {s : List Char}
+    {fmt : Nat} {data : Bytes} (h : ss58Decode H s = .ok (fmt, data)) :
+    ss58Encode H data fmt = .ok s :=
+  ss58_decode_canonical' H h
+
+/-- decoding is injective on accepted addresses. -/
+theorem ss58Decode_inj (H : Bytes → Bytes) {s t : List Char} {r : Nat × Bytes}
+    (hs : ss58Decode H s = .ok r) (ht : ss58Decode H t = .ok r) : s = t := by
+  obtain ⟨fmt, data⟩ := r
+  have h1 := ss58_decode_canonical' H hs
+  rw [ss58_decode_canonical' H ht] at h1
+  exact (Except.ok.inj h1).symm
+
+/-! ### error classes -/
+
+theorem alphaIndex_error {alph : List Char} {c : Char} {e : Err} (h : alphaIndex alph c = .error e) :
+    e = .value := by
+  unfold alphaIndex at h
+  cases hi : alph.idxOf? c with
+  | none => rw [hi] at h; cases h; rfl
+  | some i => rw [hi] at h; cases h
+
+theorem mapM_error_of {α β} {f : α → R β} {P : Err → Prop} (hf : ∀ a e, f a = .error e → P e)
+    (l : List α) {e : Err} (h : l.mapM f = .error e) : P e := by
+  induction l with
+  | nil => rw [List.mapM_nil] at h; cases h
+  | cons a t ih =>
+    rw [List.mapM_cons] at h
+    cases hfa : f a with
+    | error e' => rw [hfa] at h; cases h; exact hf a e hfa
+    | ok b =>
+      cases ht : t.mapM f with
+      | error e' => rw [hfa, ht] at h; cases h; exact ih ht
+      | ok bs => rw [hfa, ht] at h; cases h
+
+theorem b58Decode_error {alph : List Char} {s : List Char} {e : Err} (h : b58Decode alph s = .error e) :
+    e = .value := by
+  unfold b58Decode at h
+  cases hm : s.mapM (alphaIndex alph) with
+  | error e' =>
+    rw [hm] at h
+    have : e' = e := by cases h; rfl
+    subst this
+    exact mapM_error_of (P := fun e => e = .value) (fun a e h => alphaIndex_error h) s hm
+  | ok ds => rw [hm] at h; cases h
+
+/-- **SS58 error classes**: the decoder fails only with `ValueError` or the checksum error – in
+particular never with `IndexError`. -/
+theorem ss58_decode_errors (H : Bytes → Bytes) {s : List Char} {e : Err}
+    (h : ss58Decode H s = .error e) : e = .value ∨ e = .checksum := by
+  rw [ss58Decode_eq_flat] at h
+  unfold ss58DecodeFlat at h
+  cases hdec : b58Decode btcAlphabet s with
+  | error e' =>
+    rw [hdec] at h
+    have : e' = e := by cases h; rfl
+    subst this
+    exact Or.inl (b58Decode_error hdec)
+  | ok dec =>
+    rw [hdec] at h
+    simp only at h
+    by_cases hl : dec.length < 2
+    · rw [if_pos hl] at h; cases h; exact Or.inl rfl
+    · rw [if_neg hl] at h
+      cases hp : ss58PrefixStrict dec with
+      | none => rw [hp] at h; cases h; exact Or.inl rfl
+      | some pr =>
+        obtain ⟨fmtLen, fmt'⟩ := pr
+        rw [hp] at h
+        simp only [ss58Tail] at h
+        by_cases h1 : fmt' = 46 ∨ fmt' = 47
+        · rw [if_pos h1] at h; cases h; exact Or.inl rfl
+        · rw [if_neg h1] at h
+          by_cases h2 : (if dec.length < fmtLen + 2 then [] else dropLast (dec.drop fmtLen) 2).length ≠ 32
+          · rw [if_pos h2] at h; cases h; exact Or.inl rfl
+          · rw [if_neg h2] at h
+            by_cases h3 : takeLast dec 2 ≠ ss58Checksum H (dropLast dec 2)
+            · rw [if_pos h3] at h; cases h; exact Or.inr rfl
+            · rw [if_neg h3] at h; cases h
 
 end BipVerif.Model
